@@ -259,7 +259,9 @@ fn pu(ws: &[&str], k: &str) -> Option<usize> {
 }
 
 fn exec_case(ops: &[String], run: &mut Run) {
-    let mut world: Option<World> = None;
+    // not dropped while a panic unwinds: dropping a KalmanLink locks the (then poisoned) controller mutex,
+    // a second panic would abort the whole run instead of reporting the first one
+    let mut world: std::mem::ManuallyDrop<Option<World>> = std::mem::ManuallyDrop::new(None);
     // once an estimated VALUE is NaN (NaN uncertainties = negative variances are deterministic) the comparison stops: what happens next depends on the signs of NaNs
     // (`total_cmp` in the consensus sort), which Rust leaves unspecified
     let mut nan_dead = false;
@@ -270,6 +272,25 @@ fn exec_case(ops: &[String], run: &mut Run) {
         let ws: Vec<&str> = op.split_whitespace().collect();
         if ws.is_empty() {
             run.end_op("bad-op");
+            continue;
+        }
+        if ws[0] == "wlaw" {
+            // the arithmetic fact behind `consensus_never_panics` (Lean: `WindowLaw`): for finite h >= 0 the bound x - h
+            // does not sort after x + h (total_cmp, Start before End on ties)
+            match (pf(&ws, "x"), pf(&ws, "h")) {
+                (Some(x), Some(h)) => {
+                    let (lo, hi) = (x - h, x + h);
+                    let ok = lo.total_cmp(&hi) != core::cmp::Ordering::Greater;
+                    let applies = h >= 0.0 && h.is_finite();
+                    let corner = x == 0.0 && x.is_sign_negative() && h == 0.0 && h.is_sign_negative();
+                    if applies && !ok && !corner {
+                        run.oracle_fail("window_law", "", &format!("x={} h={}: x-h sorts after x+h", f64hex(x), f64hex(h)));
+                    }
+                    run.hit(if !applies { "wlaw-na" } else if corner { "wlaw-corner" } else { "wlaw" });
+                    run.end_op(&format!("wlaw {} {} {}", if lo.is_nan() || hi.is_nan() { "-" } else if ok { "1" } else { "0" }, if lo.is_nan() { "nan".to_string() } else { f64hex(lo) }, if hi.is_nan() { "nan".to_string() } else { f64hex(hi) }));
+                }
+                _ => run.end_op("bad-op"),
+            }
             continue;
         }
         if nan_dead && ws[0] != "new" {
@@ -303,11 +324,11 @@ fn exec_case(ops: &[String], run: &mut Run) {
                 Ok((c, id0)) => {
                     let wd = World { ctrl: Arc::new(c), ids: vec![(id0, Some(sys))], links: vec![], n_links: 0 };
                     let obs = format!("ok [] {}", wd.table());
-                    world = Some(wd);
+                    *world = Some(wd);
                     run.end_op(&obs);
                 }
                 Err(e) => {
-                    world = None;
+                    *world = None;
                     run.end_op(&format!("{} [] none", err_name(&e)));
                 }
             }
@@ -616,6 +637,7 @@ fn exec_case(ops: &[String], run: &mut Run) {
     if steers > 0 {
         run.nontrivial(&key);
     }
+    unsafe { std::mem::ManuallyDrop::drop(&mut world) };
 }
 
 /// generator-side bookkeeping (approximate: it only has to make most op lines meaningful)
@@ -628,6 +650,14 @@ struct Gen {
 fn gen_case(rng: &mut Rng, idx: u64, _run: &Run) -> Vec<String> {
     let mut ops = vec![];
     let f = |x: f64| f64hex(x);
+    {
+        let specials = [0.0, -0.0, 1.0, -1.0, f64::INFINITY, f64::NEG_INFINITY, f64::NAN, f64::MAX, f64::MIN_POSITIVE, 5e-324, 1e300, -1e300, 1e-3];
+        for _ in 0..3 {
+            let x = if rng.chance(1, 2) { *rng.pick(&specials) } else { (rng.f64_unit() * 2.0 - 1.0) * 10f64.powi(rng.range(-20, 20) as i32) };
+            let h = if rng.chance(1, 2) { *rng.pick(&specials) } else { rng.f64_unit() * 10f64.powi(rng.range(-20, 20) as i32) };
+            ops.push(format!("wlaw x={} h={}", f(x), f(h)));
+        }
+    }
     let t0 = (rng.below(2_000_000_000), rng.below(1_000_000_000));
     let max0 = match rng.below(6) {
         0 => 1e-6,
@@ -640,7 +670,14 @@ fn gen_case(rng: &mut Rng, idx: u64, _run: &Run) -> Vec<String> {
         _ => 1,
     };
     let mw = if rng.chance(1, 5) { 1e-4 } else { 1.0 };
-    ops.push(format!("new t={}:{} max={} w={} ow={} lw={} dw={} mw={} ma={}", t0.0, t0.1, f(max0), f(1e-8), f(3.0), f(3.0), f(1.0), f(mw), ma));
+    // now and then a nonsensical (negative) weight: must neither panic nor select anything odd
+    let (ow, lw, dw) = match rng.below(24) {
+        0 => (-3.0, 3.0, 1.0),
+        1 => (3.0, -3.0, 1.0),
+        2 => (3.0, 3.0, -1.0),
+        _ => (3.0, 3.0, 1.0),
+    };
+    ops.push(format!("new t={}:{} max={} w={} ow={} lw={} dw={} mw={} ma={}", t0.0, t0.1, f(max0), f(1e-8), f(ow), f(lw), f(dw), f(mw), ma));
     let mut g = Gen { kinds: vec![Some(true)], links: vec![], bias: vec![] };
     let mut push_link = |g: &mut Gen, ops: &mut Vec<String>, rng: &mut Rng, a: usize, b: usize, tracked: bool| {
         let dec = if tracked { f64hex(0.01 * (1.0 + rng.f64_unit())) } else { "-".to_string() };
@@ -663,6 +700,17 @@ fn gen_case(rng: &mut Rng, idx: u64, _run: &Run) -> Vec<String> {
         ops.push(format!("tick dt={}", f(1.0)));
         ops.push(format!("meas l=0 fwd=0 d={} u={}", f(-1e-3), f(1e-6)));
         return ops;
+    }
+    // corpus case 1: the witness of F-C43c (negative window weight: the consensus sweep underflowed)
+    if idx == 1 {
+        return vec![
+            format!("new t=100:0 max={} w={} ow={} lw={} dw={} mw={} ma=1", f(1e-4), f(1e-8), f(-3.0), f(3.0), f(1.0), f(1.0)),
+            "addext".to_string(),
+            "link a=0 b=1 dec=-".to_string(),
+            format!("extupd l=0 rd={} leap=0 usable=1", f(0.0)),
+            format!("meas l=0 fwd=1 d={} u={}", f(1e-3), f(1e-6)),
+            format!("meas l=0 fwd=0 d={} u={}", f(-1e-3), f(1e-6)),
+        ];
     }
     // set-up phase: some external references with usable links to the system clock
     let n_ext = match rng.below(8) {
